@@ -96,6 +96,7 @@ def _mu(y):
 def _spy_classes():
     """Four families of user learners.
     plain    : fitted state in the learner's own attributes (any copy isolates it)
+    warm     : as plain, but fit() accumulates the training rows of earlier fits of the same object lineage (warm start)
     core     : fitted state inside a mutable sub-object created in __init__ and trained in place (only a deep copy isolates it)
     pipeline : sklearn Pipeline(identity transformer, plain spy): the steps list is the shared sub-object
     sl       : zEpid's SuperLearner (fit appends to the list self.fit_estimators created in __init__) with a quiet candidate"""
@@ -129,6 +130,19 @@ def _spy_classes():
             _log_predict('predict_proba', self.role, X, held)
             p = _values(mu, X)
             return np.column_stack([1 - p, p])
+
+    class WarmSpy(Spy):
+        """warm-start semantics (sklearn's documented warm_start=True, incremental learners): fit() continues from whatever
+        fitted state the object already carries, so the rows a model has learnt from accumulate along a copy lineage"""
+        def fit(self, X, y):
+            ids = [int(v) for v in X[:, 0]]
+            _log_fit(self.role, ids)
+            prev = getattr(self, 'state_', None)
+            self.state_ = {'ids': (list(prev['ids']) if prev else []) + ids, 'mu': _mu(y)}
+            return self
+
+    class WarmSpyProba(WarmSpy):
+        predict_proba = SpyProba.predict_proba
 
     class Core:
         def __init__(self):
@@ -191,6 +205,9 @@ def _spy_classes():
             inner = (SpyProba if proba else Spy)(role)
             o = Pipeline([('ident', FunctionTransformer()), ('spy', inner)])
             return o, (lambda: hasattr(inner, 'state_') or hasattr(o.steps[-1][1], 'state_'))
+        if kind == 'warm':
+            o = (WarmSpyProba if proba else WarmSpy)(role)
+            return o, (lambda: hasattr(o, 'state_'))
         if kind == 'sl':
             o = SpySL(role)
             return o, (lambda: len(o.fit_estimators) > 0)
@@ -385,7 +402,7 @@ def gen_specs(ctx):
              'dseed': rng.randint(0, 2 ** 31 - 1), 'outcome': rng.choice(['binary', 'binary', 'continuous']),
              'proba': rng.random() < 0.6, 'index': rng.choice(['range', 'range', 'shift', 'dup', 'str']),
              'nmiss': rng.choice([0, 0, 0, 1, 3, 5]),
-             'learner': rng.choice(['plain', 'plain', 'plain', 'core', 'core', 'core', 'pipeline', 'pipeline', 'sl', 'sl'])}
+             'learner': rng.choice(['plain', 'plain', 'warm', 'warm', 'core', 'core', 'core', 'pipeline', 'pipeline', 'sl', 'sl'])}
         if s['learner'] == 'sl' and n // k < 6:      # SuperLearner's inner 2-fold CV needs a few rows per part
             s['learner'] = 'core'
         kmin = 3 if is_double(cls) else 2
